@@ -138,6 +138,16 @@ class _InlineFunction(XPathFunction):
 
         elif not match_sequence_type(v, sequence_type, self.parser):
             if sequence_type.startswith('xs:') and any(
+                    isinstance(x, XPathArray) for x in (v if isinstance(v, list) else [v])):
+                # atomization: an array is replaced by its (atomized) members
+                v = [y for x in (v if isinstance(v, list) else [v])
+                     for y in (x.iter_flatten(context) if isinstance(x, XPathArray) else [x])]
+                if len(v) == 1:
+                    v = v[0]
+                if match_sequence_type(v, sequence_type, self.parser):
+                    return v
+
+            if sequence_type.startswith('xs:') and any(
                     isinstance(x, XPathFunction) and not isinstance(x, XPathArray)
                     for x in (v if isinstance(v, list) else [v])):
                 raise self.error('FOTY0013', "a function item cannot be atomized")
